@@ -69,6 +69,7 @@ FormatClauses(e) ==
         symUnique == Cardinality({i \in DOMAIN OUnits(T) : OUnits(T)[i].sym.cp = sym}) = 1
     IN << Cl("C15.known", TRUE, kn),
           Cl("C18.total.format", kn /\ claim /\ OKind(T) = "ref", ok /\ Ok(e.ref)),
+          Cl("C15.defined", kn /\ fin, ok),                       \* displaying a finite value yields a text
           Cl("C15.unitless", kn /\ ok /\ unitless /\ Ok(e.ref), o = e.ref.ok.cp),
           Cl("C15.layout", kn /\ ok /\ ~unitless /\ fin, wellformed),
           Cl("C15.sign", kn /\ ok /\ ~unitless /\ fin /\ wellformed /\ ~negz, pn.sign = expsign),
